@@ -73,6 +73,10 @@ def frames_for(seed):
         "tr": rng.integers(12, 20, size=m2),
     })
     new["succ"] = np.minimum(rng.integers(0, 5, size=m2), new["tr"].to_numpy())
+    # floats that are distinct but close (relative 1e-5 .. 1e-6): equality is exact
+    fc_vals = np.array([2499.98, 2500.0, 2500.02, 0.5, 0.500001])
+    df["fc"] = fc_vals[np.arange(n) % 5][rng.permutation(n)]
+    new["fc"] = fc_vals[1 + np.arange(m2) % 4]  # lacks the smallest training value... of the large ones
     # the same strings as categorical dtypes whose declared order is not the sorted one
     decl = sorted(s_lv, reverse=True)
     for d in (df, new):
@@ -105,7 +109,7 @@ def judge(case, m):
     # ---- binary / B -------------------------------------------------------------------------
     for fn in ("binary", "B"):
         for colname, values in (("s", sorted(set(df["s"]))), ("e", sorted(set(df["e"].tolist()))), ("k", sorted(set(df["k"].tolist()))),
-                                ("sc", sorted(set(df["s"]))), ("so", sorted(set(df["s"])))):
+                                ("sc", sorted(set(df["s"]))), ("so", sorted(set(df["s"]))), ("fc", sorted(set(df["fc"].tolist())))):
             choices = [None] + list(values)
             for succ in rng.sample(choices, min(3, len(choices))) + ([0] if colname in ("e", "k") else [""] if "" in values else []):
                 lit = "" if succ is None else (", " + (repr(succ) if not isinstance(succ, str) else "'" + succ + "'"))
@@ -133,6 +137,8 @@ def judge(case, m):
                     m.violation("binary-indicator", f"{term}: prediction raised {type(e).__name__}: {e}", case=c, key="binary:prediction-raises")
             # a success value that never occurs in training is refused (falsy values included)
             absents = ["'never'"] + ([] if "" in values else ["''"]) if colname in ("s", "sc", "so") else ["99"]
+            if colname == "fc":
+                absents = ["2500.01", "0.5000005", "2499.979"]
             for absent in absents:
                 m.ev("binary-indicator")
                 try:
